@@ -36,7 +36,7 @@ theorem resendStored_ind {Q : C → Prop} (c : C) (h1 : Q (sendStored c))
   · exact h2 h1
 
 /-- `sendPostProcess` changes no field but `sendSet` -/
-theorem sendPostProcess_s (c : C) :
+theorem sendPostProcess_s_cases (c : C) :
     (sendPostProcess c).s = c.s ∨ (sendPostProcess c).s = { c.s with sendSet := true } := by
   unfold sendPostProcess
   split
@@ -46,7 +46,7 @@ theorem sendPostProcess_s (c : C) :
     · exact .inl rfl
   · exact .inl rfl
 
-theorem sendPostProcess_evs (c : C) :
+theorem sendPostProcess_ev_cases (c : C) :
     (sendPostProcess c).ev = c.ev ∨ ∃ ms, (sendPostProcess c).ev = c.ev ++ [.timerReset .pingreqSend ms] := by
   unfold sendPostProcess
   split
@@ -64,20 +64,20 @@ theorem sendPostProcess_cfg' (c : C) : (sendPostProcess c).cfg = c.cfg := by
   · rfl
 
 /-- `resendStored` agrees with `sendStored` on every field except `sendSet` … -/
-theorem resendStored_s (c : C) :
+theorem resendStored_s_cases (c : C) :
     (resendStored c).s = (sendStored c).s ∨
       (resendStored c).s = { (sendStored c).s with sendSet := true } := by
   rcases resendStored_eq c with h | h <;> rw [h]
   · exact .inl rfl
-  · exact sendPostProcess_s _
+  · exact sendPostProcess_s_cases _
 
 /-- … and its events are those of `sendStored` followed by at most one re-arm request -/
-theorem resendStored_evs (c : C) :
+theorem resendStored_ev_cases (c : C) :
     (resendStored c).ev = (sendStored c).ev ∨
       ∃ ms, (resendStored c).ev = (sendStored c).ev ++ [.timerReset .pingreqSend ms] := by
   rcases resendStored_eq c with h | h <;> rw [h]
   · exact .inl rfl
-  · exact sendPostProcess_evs _
+  · exact sendPostProcess_ev_cases _
 
 theorem resendStored_cfg' (c : C) : (resendStored c).cfg = (sendStored c).cfg := by
   rcases resendStored_eq c with h | h <;> rw [h]
